@@ -17,6 +17,8 @@ pub enum Tier {
 pub fn flavour() -> &'static str {
     if cfg!(feature = "flavor-nostd") {
         "no_std"
+    } else if cfg!(feature = "bigval") {
+        "std_bigval"
     } else {
         "std"
     }
@@ -1091,7 +1093,7 @@ pub fn gen(prop: &str, verif_seed: u64, run_index: u64, tier: Tier) -> Trace {
             h.key_type = "TK".into();
             // beyond 2^16 entries in one list (thorough tier only: such a run takes seconds)
             match h.kind {
-                Kind::Lru => h.sizes = vec![65_600],
+                Kind::Lru => h.sizes = vec![*rc.pick(&[65_600usize, 65_600, 100_100])],
                 Kind::Slru => h.sizes = if rc.chance(1, 2) { vec![8, 65_600] } else { vec![65_600, 8] },
                 Kind::TwoQ => {
                     h.sizes = vec![70_000];
